@@ -6,7 +6,8 @@ library's own test suite still passes with it, that its demo says HOLDS on the c
 changed one, then run `./check <PID>` (quick; thorough with --thorough) with VERIF_REPO pointing at the changed
 tree and record whether a VIOLATION line with a replay was printed.  Results go to seeded/RESULTS.json.
 
-usage: run_seeded.py [--thorough] [--skip-confirm] [name ...]
+usage: run_seeded.py [--thorough] [--skip-confirm] [--cross] [name ...]
+(--cross: when the property's own check misses a change, run every other check against it as well)
 """
 import json, os, subprocess, sys, shutil, time
 
@@ -25,6 +26,7 @@ def main():
     args = [a for a in sys.argv[1:] if not a.startswith("--")]
     thorough = "--thorough" in sys.argv
     confirm = "--skip-confirm" not in sys.argv
+    cross = "--cross" in sys.argv
     names = args or sorted(n for n in os.listdir(SEEDED) if os.path.isdir(os.path.join(SEEDED, n)))
     wt = f"/tmp/seedcheck_{os.getpid()}"
     sh(["git", "-C", REPO, "worktree", "add", "--detach", wt, "HEAD"])
@@ -72,6 +74,18 @@ def main():
             r["detected"] = rcc == 1 and bool(viol)
             r["with_failing_input"] = any("no-failing-input-found" not in l for l in viol)
             r["tier"] = "thorough" if thorough else "quick"
+            if cross and not r["detected"]:
+                # which other property's check reports it?
+                by = []
+                man = json.load(open(os.path.join(ROOT, "MANIFEST.json")))
+                for c in man["checks"]:
+                    q = c["property_id"]
+                    if q == pid:
+                        continue
+                    rc2, out2 = sh([os.path.join(ROOT, "check"), q], cwd=ROOT, env=dict(os.environ, VERIF_REPO=wt), timeout=7200)
+                    if rc2 == 1 and any(l.startswith("VIOLATION") for l in out2.splitlines()):
+                        by.append(q)
+                r["cross_detected_by"] = by
             results[name] = r
             print(f"{name}: detected={r['detected']} failing_input={r['with_failing_input']} exit={rcc} "
                   f"confirmed={r.get('confirmed')} {r['wall']}s")
